@@ -1,7 +1,18 @@
 #!/bin/sh
-# runs the thorough tier of every claimed property, one after the other, and prints the verdict lines
+# runs the thorough tier of every claimed property, one after the other, and prints the verdict lines.
+# VERIF_THOROUGH_SCALE=<percent> scales the run counts of the netsim properties (default 100).
 cd "$(dirname "$0")/.."
+S=${VERIF_THOROUGH_SCALE:-100}
 for p in C04 C05 C06 C07 C02 C03 C08 C09 C10 C11 C12 C13 C14 C15 C17 C19 C01 C16; do
   echo "=== $p"
-  VERIF_REPO=${VP_RUN_REPO:-/repo} ./check run $p --tier thorough 2>&1 | grep -E "^VIOLATION|^KNOWN|class=|check: prop|MACHINERY|^  [A-Za-z]" | cut -c1-400 | head -30
+  RUNS=""
+  if [ "$S" != 100 ]; then
+    case $p in
+      C04|C05|C06|C07) ;;
+      C19|C01) RUNS="--runs $((300000*S/100))";;
+      C16) RUNS="--runs $((40000*S/100))";;
+      *) RUNS="--runs $((200000*S/100))";;
+    esac
+  fi
+  VERIF_REPO=${VP_RUN_REPO:-/repo} ./check run $p --tier thorough $RUNS 2>&1 | grep -E "^VIOLATION|^KNOWN|class=|check: prop|MACHINERY|^  [A-Za-z]" | cut -c1-400 | head -30
 done
